@@ -120,7 +120,7 @@ PROPS = {
         # the loader re-inserts through set_value/expire with the TTL computed by rdb_load_ttl: the deadline those install is part of the round trip
         'verus': [{'group': 'c09_rdb'}, {'group': 'c09_load'}, {'group': 'shard_lists', 'units': ['rpush']}, {'group': 'shard_sets', 'units': ['sadd']}, {'group': 'shard_hashes', 'units': ['hset']}, {'group': 'shard_core', 'units': ['deadline_after', 'vm_with_expiration', 'vm_set_expiration', 'vm_is_expired', 'sv_with_expiration', 'sv_is_expired', 'set_value', 'expire']}],
         'kani': RDB_KANI,
-        'explanation': 'codec level: length / fixed-width field encoders and decoders are inverse for every value (Kani, complete); expiry-on-load computation proved (Verus); value level for LISTS, SETS and HASHES: the writer\'s and the loader\'s match arms proved against one item-level record format; sorted sets and streams are not under contract at value level',
+        'explanation': 'codec level: length / fixed-width field encoders and decoders are inverse for every value (Kani, complete); expiry-on-load computation proved (Verus); value level for STRINGS, LISTS, SETS, HASHES and SORTED SETS: the writer\'s and the loader\'s match arms proved against one item-level record format; streams are not under contract at value level',
     },
     'C10': {
         'level': 'proof',
